@@ -264,7 +264,7 @@ def toast(ptnode, high_level, categorical):
         assert len(ptnode.children) == 2
         if high_level:
             return ak.types.ArrayType(
-                toast(ptnode.children[1], high_level, categorical), ptnode.children[0]
+                toast(ptnode.children[1], False, categorical), ptnode.children[0]
             )
         return ak.types.RegularType(
             toast(ptnode.children[1], high_level, categorical), ptnode.children[0]
